@@ -1,0 +1,11 @@
+//go:build verif
+
+package msgpacker
+
+// VerifMemoryCurrent returns the global buffered-bytes counter. It exists only
+// in builds with the verif tag (simulation harness observation).
+func VerifMemoryCurrent() int {
+	memoryCheck.lock.RLock()
+	defer memoryCheck.lock.RUnlock()
+	return memoryCheck.current
+}
